@@ -19,6 +19,19 @@ type box struct {
 	reader  *Reader
 }
 
+// maxChildErrors is the number of child boxes of one file whose content may fail to parse
+// before the box holding them is given up. Each failure is reported through an error value
+// that records its call stack: a fixed cost that a file made of thousands of empty boxes
+// would otherwise multiply far beyond its own size.
+const maxChildErrors = 32
+
+// childFailed records that the content of the child box b could not be read and reports
+// whether too many children of this file have failed.
+func (b *box) childFailed() bool {
+	b.reader.childErrs++
+	return b.reader.childErrs > maxChildErrors
+}
+
 // isType returns the boxType
 func (b box) isType(bt boxType) bool { return b.boxType == bt }
 
